@@ -56,13 +56,20 @@ def pipeline_part(ctx):
     return out
 
 
+def post_all(ctx):
+    from .. import abstraction
+    cov = pipeline_part(ctx)
+    cov.update(abstraction.part(ctx["run"], ctx["run"].tier, ctx["run"].seed, "equiv"))
+    return cov
+
+
 def main(tier, seed):
     items = standard_items(seed, tier, 14, 300, bench_quick=5, corpus_quick=14, ps_quick=12, ps_thorough=220)
     variants = [("", {}), ("-c2a", {"cond2arithm": True}), ("-tc", {"transform_categoricals": True})]
     if tier != "quick":
         variants.append(("-c2a-tc", {"cond2arithm": True, "transform_categoricals": True}))
     return analysis_check("C02", tier, seed, items=items, want=["parsed", "passes"], variants=variants,
-                          builders=[C.b_source, C.b_passes], N=4 if tier == "quick" else 6, post=pipeline_part,
+                          builders=[C.b_source, C.b_passes], N=4 if tier == "quick" else 6, post=post_all,
                           assumptions=["passes whose output contains an abstracted probability symbol (_probN) are not compared",
                                        "trivial_guard is excluded (changes the meaning by design)"])
 
